@@ -148,3 +148,19 @@ Proof.
   - intros [b l c] [b' l' c']; cbn; intros [? ?] [? ?] ?; subst; reflexivity.
   - cbn. repeat split; lia.
 Qed.
+
+(** [Span::enclosing] orders its two arguments by byte itself: the result does not depend on the order in which
+    the positions are handed over, runs forwards, and its endpoints are the two arguments *)
+Lemma enclosing_spec (S : pos -> Prop) : Chain S -> forall a b, S a -> S b ->
+  let r := enclosing a b in
+  byte (sstart r) <= byte (send r)
+  /\ ((sstart r = a /\ send r = b) \/ (sstart r = b /\ send r = a))
+  /\ enclosing b a = r.
+Proof.
+  intros HC a b Ha Hb. unfold enclosing.
+  destruct (Nat.ltb_spec (byte b) (byte a)) as [H1|H1], (Nat.ltb_spec (byte a) (byte b)) as [H2|H2]; cbn [sstart send]; try lia.
+  - split; [lia|]. split; [right; split; reflexivity|reflexivity].
+  - split; [lia|]. split; [left; split; reflexivity|reflexivity].
+  - assert (E : a = b) by (apply HC; [exact Ha|exact Hb|lia]). subst b.
+    split; [lia|]. split; [left; split; reflexivity|reflexivity].
+Qed.
